@@ -1,5 +1,5 @@
 #!/usr/bin/env python3
-"""Regenerate the round-4 / round-5 / round-6 tables of DESIGN.md section 11 from seeded/*/meta.json and
+"""Regenerate the round-4 .. round-7 tables of DESIGN.md section 11 from seeded/*/meta.json and
 seeded/RESULTS.json (between the markers)."""
 import json, os, re
 res=json.load(open('/verif/seeded/RESULTS.json'))
@@ -47,6 +47,18 @@ disk's timestamps (section 2.6), the fallback form of a candidate and bounded co
 
 {table('r6-')}
 
+Seventh round, focus on RARELY EXERCISED ENTRY POINTS, PARAMETERS AND MODES and on NUMERICALLY
+DELICATE changes (a constructor variant, a 5-DOF or "continuing" overload, the wrapper as opposed
+to the body method, a unit mix-up on a rare path, f32 versus f64, tolerances, comparison
+boundaries): 21 more, `/verif/seeded/r7-*`. When first run 11 were caught and 10 missed; the
+misses were all workload or oracle bounds (no parallelogram linkage around the stack, bounds
+pinned after `from_degrees`, always-legal initial vectors, metre-sized lengths only, no
+planner steps below a thousandth of a radian, no goal equal to the start up to rounding, no
+constraints obtained through the URDF path, `filter()` never consulted). One stays missed
+(`r7-c13-m1`, see its row).
+
+{table('r7-')}
+
 Probes of my own (no demonstration programs, not counted): `own-hang-1` (a spin loop between
 scheduling points, reported as `t:no-termination` by the watchdog), `own-r6-c11-m3-static` (my
 port of `r6-c11-m3` to a static, caught by C11 after its second phase was made to repeat the
@@ -55,7 +67,7 @@ budget in `dual_rrt_connect`, caught by C12 clause g through the simulated clock
 (`Tool::forward_with_joint_poses` moving link 6 to the tool centre point, caught by the placement
 oracle of C10).
 
-Totals over the six rounds: {det} of {tot} seeded changes are caught by the QUICK tier of their
+Totals over the seven rounds: {det} of {tot} seeded changes are caught by the QUICK tier of their
 property's check{', ' + ', '.join(thor) + ' only by the thorough tier' if thor else ''}.
 <!-- SEEDED-TABLES-END -->"""
 s=open('/verif/DESIGN.md').read()
